@@ -82,6 +82,21 @@ COMMON_TB = [
 ]
 
 PROPS = {
+    "C10": {
+        "harness": "c10", "driver": "c10",
+        "lean_modules": ["BleveModel.Props.C10"],
+        "rule": ("in-memory scorch and upsidedown indexes of 5-40 documents (keyword tags single/multi-valued/missing/duplicated, "
+                 "numeric and date fields, updates and deletes), queries (match-all, term, disjunction, match-none), requests with "
+                 "random Size/From/Sort (incl. sorting on a facet field) and 1-3 facets (terms with size below/at/above the bucket "
+                 "count, prefix and regexp filters; numeric and date ranges incl. open ends; two facets over one field); every "
+                 "SearchResult.Facets entry compared with the Lean model evaluated on the matching documents obtained from a plain "
+                 "request. non-trivial = at least one matching document; distinct by op line"),
+        "trusted_base": COMMON_TB + ["Go regexp (the accepted-term set of a regexp filter is computed with it)",
+                                     "zapx / upsidedown doc-value visiting (each distinct term of a document once)"],
+        "assumptions": ["no duplicate numeric/date values inside one document (doc values hold distinct terms)", LEVEL_NOTE],
+        "floors": {"tfacet/scorch": 30, "nfacet/scorch": 30, "dfacet/upsidedown": 20},
+        "thorough_shards": 16,
+    },
     "C15": {
         "harness": "c15", "driver": "c15",
         "lean_modules": ["BleveModel.Props.C15"],
@@ -104,11 +119,13 @@ PROPS = {
                  "the real TopNCollector for sort orders of 1-4 keys (score, id, field x type x mode x missing x direction), "
                  "sizes/skips straddling the slice/heap store switch (and the preallocation cap in the thorough tier), and "
                  "search-after from hits of the full run; hits (by hit number), Total and MaxScore compared with the Lean "
-                 "model. non-trivial = streams longer than the page"),
+                 "model; plus end-to-end Index.Search on in-memory scorch and upsidedown indexes (keyword / numeric / date fields, single- and "
+                 "multi-valued, missing) with From/Size pages, SearchAfter and SearchBefore from hits of the full ordering under total "
+                 "score-independent sorts. non-trivial = streams longer than the page and all end-to-end requests"),
         "trusted_base": COMMON_TB + ["container/heap is a priority queue for a strict total Less (heap store modelled extensionally)",
                                      "strconv.ParseFloat/FormatFloat and time RFC3339Nano round trip (search-after key encoding)"],
         "assumptions": ["scores are not NaN (boost 0 gives NaN scores: excluded point, DESIGN.md C06)", LEVEL_NOTE],
-        "floors": {"coll": 300, "after": 100},
+        "floors": {"coll": 300, "after": 100, "e2e-page/scorch": 5, "e2e-before/scorch": 3, "e2e-before/upsidedown": 3, "e2e-after/scorch": 3},
         "thorough_shards": 16,
     },
     "C07": {
